@@ -29,6 +29,9 @@ type World struct {
 	E     *nat.Env
 	Vals  []*pk.Key // current consensus validators (the harness' own bookkeeping of what it installed)
 	Owner *pk.Key   // default side-chain owner
+
+	lastDump  []nat.KV
+	lastNonce uint32
 }
 
 // NewWorld creates a universe on network id netID whose genesis validators are vals.
@@ -206,12 +209,25 @@ func peerArgs(pubHex string, addr common.Address) []byte {
 }
 
 // CommitDpos moves to the next epoch (height is advanced by one first: poly refuses two commits at
-// one height).
-func (w *World) CommitDpos() error {
+// one height). It is signed by the current consensus operator multi-sig; validator sets of more
+// than 16 members have no representable multi-sig entry (MULTI_SIG_MAX_PUBKEY_SIZE), so there the
+// other documented path is taken: anybody may commit once MaxBlockChangeView blocks have passed.
+func (w *World) CommitDpos() error { return w.commitAs(w.Vals) }
+
+func (w *World) commitAs(operatorOf []*pk.Key) error {
 	w.E.Height++
-	rec := w.E.Call(utils.NodeManagerContractAddress, node_manager.COMMIT_DPOS, nil, nat.Operator(w.Vals))
+	var first string
+	if len(operatorOf) <= 16 {
+		rec := w.E.Call(utils.NodeManagerContractAddress, node_manager.COMMIT_DPOS, nil, nat.Operator(operatorOf))
+		if rec.Ok {
+			return nil
+		}
+		first = rec.Err
+	}
+	w.E.Height += config.DefConfig.Genesis.VBFT.MaxBlockChangeView
+	rec := w.E.Call(utils.NodeManagerContractAddress, node_manager.COMMIT_DPOS, nil, pk.Single(w.Vals[0]))
 	if !rec.Ok {
-		return fmt.Errorf("commitDpos: %s", rec.Err)
+		return fmt.Errorf("commitDpos: %s / %s", first, rec.Err)
 	}
 	return nil
 }
@@ -250,22 +266,15 @@ func (w *World) RemoveValidator(k *pk.Key) error {
 	if !rec.Ok {
 		return fmt.Errorf("quitNode: %s", rec.Err)
 	}
-	// the operator is still derived from... whatever poly derives it from at this point: the
-	// quitting node is no longer ConsensusStatus, so the operator multi-sig is that of the rest.
+	// the quitting node is no longer ConsensusStatus, so the operator multi-sig is that of the rest
 	rest := []*pk.Key{}
 	for _, v := range w.Vals {
 		if v != k {
 			rest = append(rest, v)
 		}
 	}
-	w.E.Height++
-	rec = w.E.Call(utils.NodeManagerContractAddress, node_manager.COMMIT_DPOS, nil, nat.Operator(rest))
-	if !rec.Ok {
-		// fall back to the full set's operator
-		rec = w.E.Call(utils.NodeManagerContractAddress, node_manager.COMMIT_DPOS, nil, nat.Operator(w.Vals))
-		if !rec.Ok {
-			return fmt.Errorf("commitDpos after quit: %s", rec.Err)
-		}
+	if err := w.commitAs(rest); err != nil {
+		return err
 	}
 	w.Vals = rest
 	return w.checkVals()
@@ -457,4 +466,57 @@ func (w *World) RegisterAsset(operator *pk.Key, chainID uint64, assetMap, lockPr
 	sink := common.NewZeroCopySink(nil)
 	p.Serialization(sink)
 	return w.E.Call(utils.SideChainManagerContractAddress, side_chain_manager.REGISTER_ASSET, sink.Bytes(), pk.Single(operator))
+}
+
+// ---------------------------------------------------------------------------------------------
+// other vote-counting entry points
+
+// AddSignature calls signature_manager.addSignature as k.
+func (w *World) AddSignature(k *pk.Key, sideChainID uint64, subject, sig []byte) *nat.CallRecord {
+	sink := common.NewZeroCopySink(nil)
+	sink.WriteVarBytes(k.Addr[:])
+	sink.WriteUint64(sideChainID)
+	sink.WriteVarBytes(subject)
+	sink.WriteVarBytes(sig)
+	return w.E.Call(utils.SignatureManagerContractAddress, "addSignature", sink.Bytes(), pk.Single(k))
+}
+
+// QuorumEvents counts the "AddSignatureQuorum" notifications a call emitted.
+func QuorumEvents(rec *nat.CallRecord) int {
+	n := 0
+	for _, ev := range rec.Notify {
+		if ev.ContractAddress != utils.SignatureManagerContractAddress {
+			continue
+		}
+		if st, ok := ev.States.([]interface{}); ok && len(st) > 0 {
+			if s, ok := st[0].(string); ok && s == "AddSignatureQuorum" {
+				n++
+			}
+		}
+	}
+	return n
+}
+
+// UpdateFee calls side_chain_manager.updateFee as k.
+func (w *World) UpdateFee(k *pk.Key, chainID, view uint64, fee *big.Int) *nat.CallRecord {
+	sink := common.NewZeroCopySink(nil)
+	sink.WriteAddress(k.Addr)
+	sink.WriteUint64(chainID)
+	sink.WriteUint64(view)
+	sink.WriteVarBytes(fee.Bytes())
+	return w.E.Call(utils.SideChainManagerContractAddress, side_chain_manager.UPDATE_FEE, sink.Bytes(), pk.Single(k))
+}
+
+// Fee reads the committed fee record of a chain (view, fee).
+func (w *World) Fee(chainID uint64) (uint64, *big.Int) {
+	f, err := side_chain_manager.GetFee(w.E.Service(), chainID)
+	if err != nil || f == nil {
+		return 0, nil
+	}
+	return f.View, f.Fee
+}
+
+// QuitNodeOnly sends quitNode for k without committing the epoch (k becomes "quitting").
+func (w *World) QuitNodeOnly(k *pk.Key) *nat.CallRecord {
+	return w.E.Call(utils.NodeManagerContractAddress, node_manager.QUIT_NODE, peerArgs(k.PubHex(), k.Addr), pk.Single(k))
 }
